@@ -33,6 +33,7 @@ RULE = ('random partitions of 4-12 nodes into aggregates (with unaggregated rows
         'pattern containment, polynomial identity.  Non-trivial: an aggregate with >= 2 nodes.')
 RULE += (' '
          'Polynomial identity P = (I - cK)^d T fitted for Jacobi (diagonal, block, local weighting) and Richardson, degrees 1-3, CSR and BSR, incl. a BSR problem rescaled per unknown (diagonal blocks not multiples of the identity).')
+THOROUGH_ROUNDS = 8
 TRUSTED = ['NumPy/SciPy on the oracle side', 'spectral-radius estimate inside the Jacobi/Richardson smoothers (value read back, not trusted)']
 PARTIAL = ['constraint projection, energy minimisation invariants, root-node identity rows: oracle only']
 HEADER = ('From Coq Require Import ZArith List PrimFloat.\nImport ListNotations.\n'
